@@ -29,7 +29,10 @@ def generate(tier, seed):
     while len([c for c in cases if c["kind"] == "constV"]) < nnet:
         name = VTEMPLATES[i % len(VTEMPLATES)]
         i += 1
-        sp, finite, sims, cap = c05.template(rnd, name)
+        # the Hill template cycles through the families with the exponent exactly 1 (the Michaelis-Menten edge) and 2
+        hv = [("hillpositive", 1.0), ("proportionalhillpositive", 1.0), ("hillpositive", 2.0), ("proportionalhillnegative", 1.0),
+              ("proportionalhillpositive", 2.5)][(i // len(VTEMPLATES)) % 5]
+        sp, finite, sims, cap = c05.template(rnd, name, hill=hv if name == "hill" else None)
         if "ssa" not in sims:
             continue
         if i % 2 == 0:
